@@ -65,7 +65,18 @@ def run(chk, scratch):
         wseed = chk.seed * 10 + wi
         d = os.path.join(scratch, "w%d" % wi)
         w = world2.rich_world(wseed)
-        pipeline.write_world(w, d)
+        # part of the reference carries IsoQuant-style ids (an extended annotation of an earlier run fed back as reference):
+        # the numbers reserved on one chromosome must not influence the ids given out on another one
+        id_map = {}
+        n = 0
+        for g in w.genes:
+            if g.chrom in ("chr1", "chr3") and g.transcripts:
+                n += 1
+                id_map[g.id] = "novel_gene_%s_%d" % (g.chrom, n)
+                for t in g.transcripts:
+                    n += 1
+                    id_map[t.id] = "transcript%d.%s.nnic" % (n, g.chrom)
+        pipeline.write_world(w, d, id_map=id_map)
         ref_out = os.path.join(d, "ref")
         r = pipeline.run(d, ref_out, threads=1, extra=base_extra, home=os.path.join(d, "home_ref"))
         if r["rc"] is None:
